@@ -268,7 +268,7 @@ def check(ctx):
     write_jsonl(ctx.path("jobs.jsonl"), mains + probes + hand)
     n_tlc_jobs = len(mains) + len(probes)
     build_s = cargo_build(ctx, ["substream"])
-    nrand, nraw = (120000, 30000) if quick else (1200000, 300000)
+    nrand, nraw = (70000, 20000) if quick else (1200000, 300000)
     wide = ",".join(w for w, sig in (("id", SIG_D7), ("sink", SIG_D8), ("nomax", SIG_D12)) if sig not in known) or "none"
     summ, crash = run_harness(ctx, ["--jobs", ctx.path("jobs.jsonl"), "--wide", wide, "--random", nrand, "--random-raw", nraw, "--seed", ctx.seed,
                                     "--threads", min(10, W()), "--out", ctx.path("trace.ndjson"), "--jobs-out", ctx.path("jobs_out.jsonl")])
